@@ -99,6 +99,46 @@ Section Issuance.
          | Err => Err
          | Panic => Panic
          end.
+  (** ---- Issuer::blind_sign_credential, the issuer's own part: the claims it supplies itself are checked
+      like directly issued ones, each at the schema position of its label (here: its index); the map is
+      walked in label order and the last revocation claim met is the credential's identifier ---- *)
+  Fixpoint check_known (known : list (nat * claim)) (sch : list claim_schema) (found : option bytes) : res (option bytes) :=
+    match known with
+    | [] => Ok found
+    | (j, c) :: t =>
+        match nth_error sch j with
+        | None => Err                                          (* claim not found in schema *)
+        | Some ts =>
+            if negb (is_type c (cs_type ts)) then Err
+            else match schema_valid (cs_validators ts) c true with
+                 | Some true => check_known t sch (match c with CRevocation i => Some i | _ => found end)
+                 | _ => Err
+                 end
+        end
+    end.
+
+  (** the label policy: every requested label is declared blindable, is not supplied by the issuer, and is
+      requested once *)
+  Fixpoint labels_ok (blindable req known_labels seen : list nat) : bool :=
+    match req with
+    | [] => true
+    | l :: t => existsb (Nat.eqb l) blindable && negb (existsb (Nat.eqb l) known_labels) && negb (existsb (Nat.eqb l) seen)
+                && labels_ok blindable t known_labels (l :: seen)
+    end.
+
+  (** [ctx_ok]: does the suite's blind_sign accept the request's context (C16) *)
+  Definition blind_sign_credential (sch : list claim_schema) (blindable : list nat) (s : reg)
+             (req : list nat) (known : list (nat * claim)) (ctx_ok : bool) : res (reg * bytes) :=
+    if negb (Nat.eqb (length req + length known) (length sch)) then Err
+    else if negb (labels_ok blindable req (map fst known) []) then Err
+    else match check_known known sch None with
+         | Ok (Some i) =>
+             if already_revoked s (idn i) then Err
+             else if ctx_ok then Ok (record s (idn i), i) else Err
+         | Ok None => Err
+         | Err => Err
+         | Panic => Panic
+         end.
 End Issuance.
 
 (** CredentialSchema::new: labels are compared as strings (here: numbers) *)
